@@ -7,6 +7,13 @@
    clock value, (2) creates the file anew, (3) closes the previous writer.  The clock is explicit and Tick
    is its own action so that TLC explores several rotations inside one clock value.
 
+   A pre-existing file may be EMPTY (another process created it and has not written yet): it is still a file
+   that exists, so it is renamed like any other.  To say "the file that was there is still there" for a file
+   without content the model carries a file identity (`ino`, the inode in the real directory): a rename moves
+   it, creating a file gives identity 0, and opening an existing path for writing keeps its identity.
+
+   Dev: "SkipEmptyRotation" -- an existing but empty destination is not renamed, the writer opens it for
+        writing and so takes over a file it did not create.
    Dev: "RotateStampCollision" -- the rotation name is a function of (path, clock) only, so a second
         rotation of the same path within one clock value overwrites the first rotated file (as built
         before the repair). *)
@@ -21,13 +28,17 @@ File(p) == <<p, 0, 0>>
 Base(f) == f[1]
 PreId(p) == IF p = (CHOOSE q \in Paths : TRUE) THEN 101 ELSE 102    \* id of the record a pre-existing file holds
 
-VARIABLES clock, exists, content, cur, nw, dest, pre, closed
-vars == <<clock, exists, content, cur, nw, dest, pre, closed>>
+VARIABLES clock, exists, content, cur, nw, dest, pre, closed, preE, ino
+vars == <<clock, exists, content, cur, nw, dest, pre, closed, preE, ino>>
+\* preE: the pre-existing paths whose file is empty; ino: file name -> identity (PreId of the path for a file that was
+\* there before the writer started, 0 for a file the writer created or for no file)
 \* exists: set of file names on disk; content: name -> sequence of record ids; cur: current_path;
 \* dest: history, record id -> path its template names; pre: set of paths that existed before the writer started
 
-Init == /\ clock = 0 /\ pre \in SUBSET Paths /\ exists = {File(p) : p \in pre}
-        /\ content = [f \in Names |-> IF f[2] = 0 /\ f[1] \in pre THEN <<PreId(f[1])>> ELSE <<>>]
+InitFiles == /\ exists = {File(p) : p \in pre}
+             /\ content = [f \in Names |-> IF f[2] = 0 /\ f[1] \in pre \ preE THEN <<PreId(f[1])>> ELSE <<>>]
+             /\ ino = [f \in Names |-> IF f[2] = 0 /\ f[1] \in pre THEN PreId(f[1]) ELSE 0]
+Init == /\ clock = 0 /\ pre \in SUBSET Paths /\ preE \in SUBSET pre /\ InitFiles
         /\ cur = None /\ nw = 0 /\ dest = <<>> /\ closed = FALSE
 
 \* the rotation name for path p at the current clock
@@ -38,7 +49,7 @@ Write(p) == /\ ~closed /\ nw < MaxOps
             /\ LET id == nw + 1
                    switch == cur # p
                    fp == File(p)
-                   rot == switch /\ fp \in exists
+                   rot == switch /\ fp \in exists /\ ~("SkipEmptyRotation" \in Dev /\ content[fp] = <<>>)
                    dst == RotName(p)
                    ex1 == IF rot THEN (exists \ {fp}) \cup {dst} ELSE exists
                    c1 == IF rot THEN [content EXCEPT ![dst] = content[fp], ![fp] = <<>>] ELSE content
@@ -46,10 +57,11 @@ Write(p) == /\ ~closed /\ nw < MaxOps
                    c2 == IF switch THEN [c1 EXCEPT ![fp] = <<>>] ELSE c1
                IN /\ exists' = ex2
                   /\ content' = [c2 EXCEPT ![fp] = Append(@, id)]
+                  /\ ino' = IF rot THEN [ino EXCEPT ![dst] = ino[fp], ![fp] = 0] ELSE ino
                   /\ nw' = id /\ dest' = Append(dest, p) /\ cur' = p
-            /\ UNCHANGED <<clock, pre, closed>>
-Tick == clock < MaxClock /\ clock' = clock + 1 /\ UNCHANGED <<exists, content, cur, nw, dest, pre, closed>>
-Close == ~closed /\ closed' = TRUE /\ UNCHANGED <<clock, exists, content, cur, nw, dest, pre>>
+            /\ UNCHANGED <<clock, pre, closed, preE>>
+Tick == clock < MaxClock /\ clock' = clock + 1 /\ UNCHANGED <<exists, content, cur, nw, dest, pre, closed, preE, ino>>
+Close == ~closed /\ closed' = TRUE /\ UNCHANGED <<clock, exists, content, cur, nw, dest, pre, preE, ino>>
 Next == (\E p \in Paths : Write(p)) \/ Tick \/ Close
 Spec == Init /\ [][Next]_vars
 
@@ -58,10 +70,14 @@ SeqToSet(q) == {q[i] : i \in DOMAIN q}
 Holders(id) == {f \in exists : id \in SeqToSet(content[f])}
 \* every record ever on disk -- written or pre-existing -- is in exactly one file ...
 NoLoss == /\ \A id \in 1..nw : Cardinality(Holders(id)) = 1
-          /\ \A p \in pre : Cardinality(Holders(PreId(p))) = 1
+          /\ \A p \in pre \ preE : Cardinality(Holders(PreId(p))) = 1
+\* a file that existed before the writer started still exists (under its own or a rotation name of its path) and the
+\* writer has put nothing into it
+NeverOverwrites == \A p \in pre : \E f \in exists : /\ ino[f] = PreId(p) /\ Base(f) = p
+                                                   /\ \A i \in DOMAIN content[f] : content[f][i] > 100
 \* ... and that file is the one its template names, or a renamed copy of it
 InRightFile == /\ \A id \in 1..nw : \A f \in Holders(id) : Base(f) = dest[id]
-               /\ \A p \in pre : \A f \in Holders(PreId(p)) : Base(f) = p
+               /\ \A p \in pre \ preE : \A f \in Holders(PreId(p)) : Base(f) = p
 \* records of one path keep their write order inside a file
 OrderKept == \A f \in exists : \A i, j \in DOMAIN content[f] : i < j => content[f][i] < content[f][j] \/ content[f][i] > 100
 =============================================================================
